@@ -193,14 +193,22 @@ def replay_rows(date, n, g, rows):
     return {"values": vals, "fails": abs(float(vals[0]) - float(vals[1])) > 1e-9}
 
 
+def _chunk(ck, dates):
+    done = set()
+    for d in dates:
+        dag = analyse(ck, d, done)
+        ck.extra["suffixed_nodes"] = ck.extra.get("suffixed_nodes", 0) + sum(1 for n in dag.nodes if gt.suffix_group(n))
+
+
 def run(tier):
     ck = common.Check("C15", tier)
     dates, st = date_classes(tier)
-    done = set()
-    n_nodes = 0
-    for d in dates:
-        dag = analyse(ck, d, done)
-        n_nodes += sum(1 for n in dag.nodes if gt.suffix_group(n))
+    chunks = [dates[i::common.JOBS] for i in range(common.JOBS) if dates[i::common.JOBS]] if len(dates) > 1 else [dates]
+    if len(chunks) == 1:
+        _chunk(ck, chunks[0])
+    else:
+        common.run_parallel(ck, _chunk, chunks)
+    n_nodes = ck.extra.get("suffixed_nodes", 0)
     ck.bounds = {"date_classes": len(dates), "suffixed_nodes_x_dates": n_nodes, "persons": "2 (two-copy query)",
                  "window": "quick: 4 dates; thorough: one representative per distinct environment >= 2015"}
     if st:
